@@ -96,6 +96,48 @@ class SeamMissing(Exception):
     pass
 
 
+@contextlib.contextmanager
+def fixed_random(tag):
+    """Rebind the library's source of IV randomness to a deterministic stream derived from `tag`, so that a base
+    archive (and with it every damage label 'bit k of byte n') is the same bytes in every run and in every replay.
+    Not used where randomness is the thing under test (C11)."""
+    import hashlib
+
+    state = {"n": 0}
+
+    def det(n):
+        out = b""
+        while len(out) < n:
+            out += hashlib.sha256(f"{tag}:{state['n']}".encode()).digest()
+            state["n"] += 1
+        return out[:n]
+
+    if not hasattr(py7zr.compressor, "get_random_bytes"):
+        raise SeamMissing("py7zr.compressor.get_random_bytes")
+    if not hasattr(py7zr.helpers, "_time"):
+        raise SeamMissing("py7zr.helpers._time")
+    real_time = py7zr.helpers._time
+
+    class _Clock:
+        """the `time` module as py7zr.helpers sees it, with time() pinned (writestr/writef stamp members with 'now')"""
+
+        def __getattr__(self, name):
+            return getattr(real_time, name)
+
+        @staticmethod
+        def time():
+            return 1700000000.0
+
+    saved = py7zr.compressor.get_random_bytes
+    py7zr.compressor.get_random_bytes = det
+    py7zr.helpers._time = _Clock()
+    try:
+        yield
+    finally:
+        py7zr.compressor.get_random_bytes = saved
+        py7zr.helpers._time = real_time
+
+
 _MISSING = object()
 
 
